@@ -1,6 +1,7 @@
 package oracle
 
 import (
+	"os"
 	"fmt"
 	"sort"
 	"strconv"
@@ -1524,6 +1525,10 @@ func (sh *Shell) dispatch(name string, argv []Str) {
 		call := ExtCall{Argv: argv, InSub: sh.inSub > 0}
 		sh.Ext = append(sh.Ext, call)
 		if sh.Stub == nil {
+			if isSystemProgram(name) {
+				// a program the real shell would find and run (mv, rm, tail, ...): its effect is outside the model
+				unsup("external program " + name + " is not modelled")
+			}
 			sh.Err = append(sh.Err, gosym.Conc(name+": command not found\n"))
 			sh.Events = append(sh.Events, "command-not-found:"+name)
 			sh.Status = int64(127)
@@ -1581,6 +1586,9 @@ func (sh *Shell) runPipeline(c *Cmd) {
 		if sh.Stub != nil {
 			out, st = sh.Stub(sh, argv, input)
 		} else {
+			if isSystemProgram(name) {
+				unsup("external program " + name + " is not modelled")
+			}
 			sh.Err = append(sh.Err, gosym.Conc(name+": command not found\n"))
 		}
 		input = out
@@ -1607,3 +1615,17 @@ var _ = fmt.Sprintf
 var unmodelledBuiltins = []string{"set", "shopt", "trap", "export", "declare", "typeset", "readonly", "unset", "shift", "exec", "ulimit", "umask",
 	"alias", "unalias", "source", ".", "enable", "builtin", "command", "let", "getopts", "hash", "wait", "kill", "cd", "pushd", "popd", "printf",
 	"mapfile", "readarray", "exit", "return", "break", "continue", "test", "[", "[[", "true", "false", ":", "type", "times", "bind", "caller", "compgen", "complete", "disown", "fc", "fg", "bg", "jobs", "history", "logout", "suspend", "help", "dirs", "coproc", "select", "time", "function", "until", "while"}
+
+// isSystemProgram: would the real shell, started with PATH=/usr/bin:/bin, find a program of this name?
+func isSystemProgram(name string) bool {
+	if strings.Contains(name, "/") {
+		_, err := os.Stat(name)
+		return err == nil
+	}
+	for _, d := range []string{"/usr/bin", "/bin"} {
+		if st, err := os.Stat(d + "/" + name); err == nil && !st.IsDir() {
+			return true
+		}
+	}
+	return false
+}
